@@ -33,10 +33,62 @@ func propC13(run *Run, n int) {
 			}
 		}
 		addC13Patch(run, t, dw)
+		if r.Chance(1, 3) {
+			// the SAME document value patched again after a patch that removed something and possibly failed half-way
+			// (a diff made for another document): the second call too ends with a result or an error
+			var dw2 string
+			if w, ok := nearMissDiff(r, cfg, t); ok && r.Chance(1, 2) {
+				dw2 = w
+			} else {
+				dw2 = tailRemovalDiff(r, t)
+			}
+			addC13TwoStep(run, t, dw, dw2)
+		}
 	}
 	for i := 0; i < n/2; i++ {
 		addC13Text(run, hostileText(r, cfg), cfg.Doc(r, 0))
 	}
+}
+
+// tailRemovalDiff: a hunk that removes the LAST element of an array of the target (root, or below key "k")
+func tailRemovalDiff(r *Rng, t *Val) string {
+	arr, path := t, ""
+	if t.K == KObj {
+		if v, ok := t.O["k"]; ok && v.K == KArr {
+			arr, path = v, "K\"6b "
+		}
+	}
+	if arr.K != KArr || len(arr.A) == 0 {
+		return "< ( s I0 | | #3ff0000000000000 | | ) >"
+	}
+	i := len(arr.A) - 1
+	return fmt.Sprintf("< ( s %sI%d | | %s | | ) >", path, i, arr.A[i].Wire())
+}
+
+// addC13TwoStep applies two diffs one after the other to the same Go document value
+func addC13TwoStep(run *Run, t *Val, dw1, dw2 string) {
+	tw := t.Wire()
+	c := Case{Recipe: Recipe{"c13two", []string{tw, dw1, dw2}}, Desc: map[string]string{"target": t.Human(), "diff1": dw1, "diff2": dw2}}
+	c.Nontrivial = t.K == KArr || t.K == KObj
+	c.Sig = "two|" + tw + "|" + dw1 + "|" + dw2
+	verdict := "ok"
+	res, msg := safely(func() string {
+		n := mustNode(tw)
+		d1, d2 := mustDiff(dw1), mustDiff(dw2)
+		r1, err := n.Patch(d1)
+		_, _ = n.Patch(d2)
+		if err == nil && r1 != nil {
+			_, _ = r1.Patch(d2)
+		}
+		_, _ = n.Patch(d1)
+		return "done"
+	})
+	if res == "panic" {
+		verdict = "fail a second Patch on the same document value panicked: " + msg
+	}
+	c.Probes = append(c.Probes, Probe{Kind: "direct", Rel: "C13 Patch again on the same document value (after a patch that removed elements or failed half-way) does not panic", Want: verdict})
+	run.Count("two-step")
+	run.Add(c)
 }
 
 func hostileDiff(r *Rng, cfg GenCfg) string {
@@ -333,6 +385,15 @@ func propC15(run *Run, n int) {
 		out := addC15Case(run, ch.o, ch.label, a, b, hist)
 		lines = append(lines, out)
 	}
+	// hand-written merge diffs in which one hunk adds a container and a later hunk writes inside it
+	for _, t := range []string{
+		"^ {\"Merge\":true}\n@ [\"a\"]\n+ {\"x\":1}\n^ {\"Merge\":true}\n@ [\"a\",\"y\"]\n+ 2\n",
+		"^ {\"Merge\":true}\n@ [\"a\"]\n+ {\"x\":{\"u\":[1]}}\n^ {\"Merge\":true}\n@ [\"a\",\"x\",\"v\"]\n+ {}\n^ {\"Merge\":true}\n@ [\"a\",\"x\",\"v\",\"w\"]\n+ null\n",
+		"@ [\"k\"]\n+ {\"x\":1}\n@ [\"k\",\"y\"]\n+ 2\n",
+		"@ [0]\n[\n+ [1]\n]\n@ [0,1]\n  1\n+ 2\n]\n",
+	} {
+		addC15DiffCase(run, "container-then-inside", t)
+	}
 	// the same history on the v1 library (package lib): Diff, Equals, Render, RenderPatch, RenderMerge, Json
 	v1c := v1Choices()
 	for i := 0; i < n/4; i++ {
@@ -469,8 +530,29 @@ func addC15Case(run *Run, o OptSet, label string, a, b *Val, hist []int) string 
 			}
 		}
 		c.Desc["history"] = strings.Join(names, ",")
+		adds0 := addsOf(d)
 		r, err := an.Patch(d)
 		patchOut = encOutcomeNode(r, err)
+		if err == nil && r != nil {
+			// the document Patch returned is patched again — inside every object it holds, in particular inside
+			// the containers the diff added: neither the diff nor b may change (Patch hands copies of the added
+			// values to the document; Diff puts nodes of b into the diff)
+			if rv, e2 := ParseWire(jd.VerifEncodeNode(r)); e2 == nil {
+				cv := rv.Clone()
+				touchObjects(cv)
+				cn := mustNode(untagVal(cv).Wire())
+				d2 := r.Diff(cn, opts...)
+				_, _ = r.Patch(d2)
+				// (the context and removed values of d are nodes of a, whose objects Patch updates in place: only
+				// what d ADDS is compared)
+				if addsOf(d) != adds0 && verdict == "ok" {
+					verdict = "fail patching the document that Patch returned changed the values the applied diff adds"
+				}
+				if jd.VerifEncodeNode(bn) != bw && verdict == "ok" {
+					verdict = "fail patching the document that Patch returned changed document b"
+				}
+			}
+		}
 		return "done"
 	})
 	if res == "panic" {
@@ -490,6 +572,88 @@ func addC15Case(run *Run, o OptSet, label string, a, b *Val, hist []int) string 
 	run.Count("opts:" + label)
 	run.Add(c)
 	return strings.Join(log, "\n") + "\n" + patchOut
+}
+
+// addsOf encodes, hunk by hunk, the path and the added values of a diff
+func addsOf(d jd.Diff) string {
+	out := []string{}
+	for _, e := range d {
+		out = append(out, jd.VerifEncodeDiff(jd.Diff{{Metadata: e.Metadata, Path: e.Path, Add: e.Add}}))
+	}
+	return strings.Join(out, " ")
+}
+
+// touchObjects adds a member to every object of the document (an edit inside every container)
+func touchObjects(v *Val) {
+	switch v.K {
+	case KObj:
+		for _, e := range v.O {
+			touchObjects(e)
+		}
+		v.O["zz"] = VNum(1)
+	case KArr:
+		for _, e := range v.A {
+			touchObjects(e)
+		}
+	}
+}
+
+// untagWire forgets the Go dynamic types of array nodes (a document as read from text)
+func untagVal(v *Val) *Val {
+	c := v.Clone()
+	var f func(*Val)
+	f = func(x *Val) {
+		if x.K == KArr {
+			x.Tag = "r"
+			for _, e := range x.A {
+				f(e)
+			}
+		}
+		if x.K == KObj {
+			for _, e := range x.O {
+				f(e)
+			}
+		}
+	}
+	f(c)
+	return c
+}
+
+// addC15DiffCase: the read-only history on a HAND-WRITTEN diff (read from native text): rendering must not change it
+func addC15DiffCase(run *Run, label, text string) {
+	c := Case{Recipe: Recipe{"c15d", []string{label, text}}, Desc: map[string]string{"diff_text": text}, Nontrivial: true, Sig: "c15d|" + text}
+	verdict := "ok"
+	res, _ := safely(func() string {
+		d, err := jd.ReadDiffString(text)
+		if err != nil {
+			verdict = "ok unreadable"
+			return "done"
+		}
+		dw0 := jd.VerifEncodeDiff(d)
+		for k := 0; k < 2; k++ {
+			r1 := d.Render()
+			_, _ = d.RenderPatch()
+			m1, e1 := d.RenderMerge()
+			if jd.VerifEncodeDiff(d) != dw0 && verdict == "ok" {
+				verdict = "fail rendering changed the diff it was given"
+			}
+			r2 := d.Render()
+			m2, e2 := d.RenderMerge()
+			if (r1 != r2 || m1 != m2 || (e1 == nil) != (e2 == nil)) && verdict == "ok" {
+				verdict = "fail a rendering returned different outputs on two calls"
+			}
+		}
+		return "done"
+	})
+	if res == "panic" {
+		verdict = "fail panic"
+	}
+	if strings.HasPrefix(verdict, "ok") {
+		verdict = "ok"
+	}
+	c.Probes = append(c.Probes, Probe{Kind: "direct", Rel: "C15 rendering a hand-written diff (native text) leaves it unchanged and repeats identically", Want: verdict})
+	run.Count("hand-written-diff:" + label)
+	run.Add(c)
 }
 
 var c15V1Calls = []string{"Diff", "Equals", "Render", "RenderPatch", "RenderMerge", "Json"}
@@ -568,6 +732,7 @@ func addC15V1Case(run *Run, m V1Meta, label string, a, b *Val, hist []int) strin
 }
 
 func init() {
+	recipes["c15d"] = func(run *Run, a []string) { addC15DiffCase(run, a[0], a[1]) }
 	recipes["c15v1"] = func(run *Run, a []string) {
 		hist := []int{}
 		for _, s := range strings.Split(a[3], ",") {
@@ -587,6 +752,7 @@ func init() {
 	thoroughN["C13"] = 300000
 	quickN["C15"] = 1500
 	thoroughN["C15"] = 40000
+	recipes["c13two"] = func(run *Run, a []string) { addC13TwoStep(run, mustVal(a[0]), a[1], a[2]) }
 	recipes["c13p"] = func(run *Run, a []string) { addC13Patch(run, mustVal(a[0]), a[1]) }
 	recipes["c13t"] = func(run *Run, a []string) { addC13Text(run, a[0], mustVal(a[1])) }
 	recipes["c15"] = func(run *Run, a []string) {
